@@ -31,6 +31,7 @@ type Xlat struct {
 	loopHdrCount map[string]int
 
 	qn int
+	stopAfterPre bool // callContract: emit the preconditions only (the caller inlines the body afterwards)
 	rp *ReplayInfo // replay of counterexamples: the function under verification and its parameters
 	nn bool // view C01: non-nil discipline of the graph structure (assumption A11)
 	lock *lockCtx
